@@ -23,6 +23,8 @@ import (
 	"regexp"
 	"sort"
 	"strings"
+	"sync"
+	"time"
 
 	"verifharness/hx"
 )
@@ -37,9 +39,43 @@ type runner struct {
 	// every stuck actor costs a full watchdog period: after a few of them the
 	// remaining scenarios are not run (the failures are already recorded)
 	stuck int
+	enum  []string
 }
 
 const maxStuck = 3
+
+// progress monitor: a scenario that makes no progress for wedgeAfter is
+// reported as a failure (the harness would otherwise only hit the orchestrator's
+// time-out, which names no scenario)
+var (
+	progressMu   sync.Mutex
+	lastProgress = time.Now()
+	current      *Scenario
+)
+
+const wedgeAfter = 120 * time.Second
+
+func progress(sc *Scenario) {
+	progressMu.Lock()
+	lastProgress, current = time.Now(), sc
+	progressMu.Unlock()
+}
+
+func (x *runner) monitor(out string) {
+	for {
+		time.Sleep(5 * time.Second)
+		progressMu.Lock()
+		idle, sc := time.Since(lastProgress), current
+		progressMu.Unlock()
+		if idle > wedgeAfter {
+			x.res.Fail("C10/harness/wedged", fmt.Sprintf("a scenario made no progress for %v: some call neither returned nor reached a yield point and the scheduler's watchdogs did not cover it", wedgeAfter), sc)
+			x.res.CaseFiles = append(x.res.CaseFiles, x.cf.Write(out, 300)...)
+			x.res.Extra["model_cases"] = x.cf.Len()
+			x.res.Write(out)
+			os.Exit(0)
+		}
+	}
+}
 
 func (x *runner) wedged() bool { return x.stuck >= maxStuck }
 
@@ -74,6 +110,7 @@ func nontrivial(sc *Scenario) bool {
 
 // record judges an outcome and files it.
 func (x *runner) record(sc *Scenario, o *Outcome) {
+	progress(nil)
 	if o.Invalid != "" && len(o.Problems) == 0 {
 		x.inv++
 		return
@@ -157,7 +194,20 @@ func randomChooser(r *hx.Rand) func(int, []int) int {
 // run from a fresh session), at most max of them.
 func (x *runner) explore(sc *Scenario, max int) {
 	var prefix []int
+	runs, exhausted := 0, false
+	defer func() {
+		var ks []string
+		for _, a := range sc.Actors {
+			k := a.Kind
+			if a.Ev != nil {
+				k += ":" + a.Ev.Type
+			}
+			ks = append(ks, k)
+		}
+		x.enum = append(x.enum, fmt.Sprintf("%s: %d schedules, exhaustive=%v", strings.Join(ks, "+"), runs, exhausted))
+	}()
 	for n := 0; n < max && !x.wedged(); n++ {
+		runs++
 		o := runForced(sc, func(depth int, en []int) int {
 			if depth < len(prefix) {
 				return prefix[depth]
@@ -175,6 +225,7 @@ func (x *runner) explore(sc *Scenario, max int) {
 			}
 		}
 		if d < 0 {
+			exhausted = true
 			return
 		}
 		prefix = append(idx[:d:d], idx[d]+1)
@@ -442,6 +493,7 @@ func main() {
 	x := &runner{res: res}
 	x.cf = hx.CaseFile{Name: "sched", Imports: imports, Ok: "case_ok", Type: "ccase"}
 	r := hx.NewRand(o.Seed)
+	go x.monitor(o.Out)
 
 	if o.Replay != "" {
 		b, err := os.ReadFile(o.Replay)
@@ -470,13 +522,13 @@ func main() {
 			x.wsProbes()
 		}
 	} else {
-		nEnum, nRand, nFree, nTimer, nRace := 45, 700, 150, 4, 10
+		nEnum, nRand, nFree, nTimer, nRace := 90, 1800, 250, 4, 12
 		if o.Thorough() {
-			nEnum, nRand, nFree, nTimer, nRace = 400, 6000, 1500, 40, 60
+			nEnum, nRand, nFree, nTimer, nRace = 1200, 18000, 3000, 60, 100
 			grace = 5 * 1000 * 1000
 		}
 		if o.Search {
-			nEnum, nRand, nFree, nTimer, nRace = 400, 8000, 2000, 20, 60
+			nEnum, nRand, nFree, nTimer, nRace = 600, 9000, 2000, 20, 60
 		}
 		for _, sc := range corpus() {
 			if x.wedged() {
@@ -509,6 +561,7 @@ func main() {
 	res.CaseFiles = append(res.CaseFiles, x.cf.Write(o.Out, 300)...)
 	res.Extra["model_cases"] = x.cf.Len()
 	res.Extra["forced_scenarios"] = x.nf
+	res.Extra["enumerated_sets"] = x.enum
 	res.Extra["dropped_real_deadline_scenarios"] = x.inv
 	res.Extra["stopped_early_after_stuck_actors"] = x.wedged()
 	res.Write(o.Out)
